@@ -71,6 +71,15 @@ for rf in sorted(glob.glob(f"{DST}/results/*.json")):
         if os.path.exists(f"{src}/notes{x}.md"):
             shutil.copy(f"{src}/notes{x}.md", f"{d}/notes.md")
     notes = open(f"{d}/notes.md").read() if os.path.exists(f"{d}/notes.md") else ""
+    def grab_para(text):
+        # the paragraph (or bullet) that says what the change needs in order to show
+        m = re.search(r"(?is)(needed to manifest|needs to manifest|what it needs|what is needed|to manifest|trigger[s]?|it needs|needs)\**[^:\n]{0,90}:\**\s*(.+?)(\n\s*\n|\n\s*[-*#] ?\**[A-Z]|\Z)", text)
+        if m:
+            return re.sub(r"\s+", " ", m.group(2)).strip(" -*")[:900]
+        for sent in re.split(r"(?<=[.;])\s+", text):
+            if re.search(r"(?i)\b(needs|only when|only if|requires|must)\b", sent):
+                return re.sub(r"\s+", " ", sent).strip(" -*")[:600]
+        return ""
     def grab(*keys):
         for line in notes.splitlines():
             l = line.strip(" -*")
@@ -83,7 +92,7 @@ for rf in sorted(glob.glob(f"{DST}/results/*.json")):
     meta = {
         "property": pid, "change": x, "title": title,
         "breaks_clause": grab("clause broken", "**clause broken", "which clause"),
-        "needs_to_manifest": grab("what is needed to manifest", "**what is needed", "what it needs", "trigger", "needs"),
+        "needs_to_manifest": grab("what is needed to manifest", "**what is needed", "what it needs", "trigger", "needs") or grab_para(notes),
         "confirmed_here": confirmed,
         "confirmation": {k: res.get(k) for k in ("patch_applies", "builds", "stable_suite_passes", "demo_with_change", "demo_without_change")},
         "what_was_run": "tools/seedcheck.py %s %s : scratch copies of /repo under /tmp (with / without the patch), go build ./..., stable suite (combination pot regulator settlement testcases), the demo in both copies, then VERIF_REPO=<patched copy> ./check <ID> quick" % (pid, x),
